@@ -935,3 +935,26 @@ func init() {
 }
 
 var jsonDefaultHavoc func(e *Engine, fr *frame, data Slice, dst Iface) Value
+
+// crypto/rand.Int under small-domain randomness: the first call of a path returns a
+// tape draw below rand_domain, later calls return 0 (each call still consumes one tape
+// byte so that the native verifRandReader stays aligned).
+func init() {
+	intercepts["crypto/rand.Int"] = func(e *Engine, fr *frame, a []Value) Value {
+		dom := e.cfg.Bounds["rand_domain"]
+		if dom <= 0 {
+			panic(e.unsupported("crypto/rand.Int without rand_domain bound"))
+		}
+		b := e.fresh("byte", BV(8))
+		if e.randInts == 0 {
+			e.Assume(e.tb.Cmp(OpUlt, b, e.tb.Const(8, uint64(dom))))
+		} else {
+			e.Assume(e.tb.Eq(b, e.tb.Const(8, 0)))
+		}
+		e.randInts++
+		rt := mustDeref(fr.fn.Signature.Results().At(0).Type())
+		sb := e.zero(rt).(*Backing)
+		sb.E[1] = Slice{B: &Backing{E: []Value{e.tb.ZExt(b, 64)}}, Len: 1, Cap: 1}
+		return Tuple{Ptr{B: &Backing{E: []Value{sb}}}, Iface{}}
+	}
+}
